@@ -19,11 +19,13 @@ position comparisons of the factory fork the path.
 """
 from __future__ import annotations
 
-from engines.prelude import pick, reach, realize, vacuous
+from engines.prelude import pick, reach, realize
 from harness import _C15_lib as L
 from harness import _C15_struct as S
 
 PROPERTY = "C15"
+
+L.world()  # analyse the subject module and build the base test cases once, at import (outside CrossHair's budget)
 
 # ======================================================================================= layer (i): F-tc
 # Structure selectors of one test case of n <= 4 statements: b_i -- statement i binds a variable;
@@ -137,17 +139,16 @@ def _ast_closure(code: str, pos: int):
     return out
 
 
-def h_f_insert(b: int, pos: int, reuse: int, tail: int, d0: int, d1: int, d2: int, d3: int, d4: int, d5: int) -> bool:
+def h_f_insert(b: int, pos: int, reuse: int, tail: int, d0: int, d1: int, d2: int, d3: int, d4: int, d5: int, d6: int, d7: int, d8: int, d9: int, d10: int, d11: int, d12: int, d13: int, d14: int, d15: int) -> bool:
     """
     pre: 0 <= b < 13 and -1 <= pos <= 9 and 0 <= reuse <= 1 and 0 <= tail <= 2
-    pre: 0 <= d0 < 1000 and 0 <= d1 < 1000 and 0 <= d2 < 1000 and 0 <= d3 < 1000 and 0 <= d4 < 1000 and 0 <= d5 < 1000
     post: _
     """
-    w, _tape = _fresh(48, reuse, (d0, d1, d2, d3, d4, d5), tail)
+    # d0 chooses the accessible (d0 % number of accessibles)
+    w, _tape = _fresh(48, reuse, (d0, d1, d2, d3, d4, d5, d6, d7, d8, d9, d10, d11, d12, d13, d14, d15), tail)
     t = L.base(b)
     orig = t.statements()
-    if pos > len(orig) + 1:
-        return vacuous()
+    pos = -1 + (pos + 1) % (len(orig) + 3)  # effective position in [-1, size + 1]
     try:
         r = w.factory.insert_random_statement(t, pos)
     except Exception as e:  # noqa: BLE001
@@ -168,7 +169,6 @@ def h_f_insert(b: int, pos: int, reuse: int, tail: int, d0: int, d1: int, d2: in
 def h_f_build(reuse: int, tail: int, a0: int, a1: int, b0: int, b1: int, c0: int, c1: int) -> bool:
     """
     pre: 0 <= reuse <= 1 and 0 <= tail <= 2
-    pre: 0 <= a0 < 1000 and 0 <= a1 < 1000 and 0 <= b0 < 1000 and 0 <= b1 < 1000 and 0 <= c0 < 1000 and 0 <= c1 < 1000
     post: _
     """
     # three insertions into an empty test case (what RandomLengthTestCaseFactory does), two symbolic draws each
@@ -197,8 +197,7 @@ def h_f_delete(b: int, pos: int) -> bool:
     pos = realize(pos)
     orig = t.statements()
     code0 = L.code_of(t)
-    if pos > len(orig):
-        return vacuous()
+    pos = -1 + (pos + 1) % (len(orig) + 2)  # effective position in [-1, size]
     inside = 0 <= pos < len(orig)
     try:
         ret = w.factory.delete_statement_gracefully(t, pos)
@@ -221,18 +220,16 @@ def _apply_change(w, t, op, pos):
     return getattr(w.factory, pick(CHANGE_OPS, op))(t, pos)
 
 
-def h_f_change(op: int, b: int, pos: int, reuse: int, tail: int, d0: int, d1: int, d2: int, d3: int, d4: int, d5: int) -> bool:
+def h_f_change(op: int, b: int, pos: int, reuse: int, tail: int, d0: int, d1: int, d2: int, d3: int, d4: int, d5: int, d6: int, d7: int, d8: int, d9: int) -> bool:
     """
     pre: 0 <= op <= 4 and 1 <= b < 13 and -1 <= pos <= 8 and 0 <= reuse <= 1 and 0 <= tail <= 2
-    pre: 0 <= d0 < 1000 and 0 <= d1 < 1000 and 0 <= d2 < 1000 and 0 <= d3 < 1000 and 0 <= d4 < 1000 and 0 <= d5 < 1000
     post: _
     """
-    w, _tape = _fresh(48, reuse, (d0, d1, d2, d3, d4, d5), tail)
+    w, _tape = _fresh(48, reuse, (d0, d1, d2, d3, d4, d5, d6, d7, d8, d9), tail)
     t = L.base(b)
     orig = t.statements()
     names0 = _bound_names(t)
-    if pos > len(orig):
-        return vacuous()
+    pos = -1 + (pos + 1) % (len(orig) + 2)  # effective position in [-1, size]
     what = f"{pick(CHANGE_OPS, op)}(base {b}, {pos})"
     try:
         ret = _apply_change(w, t, op, pos)
@@ -263,18 +260,16 @@ def _exec_result(exc: int):
 
 
 def h_f_mutate(check: int, b: int, length: int, exc: int, reuse: int, tail: int,
-               d0: int, d1: int, d2: int, d3: int, d4: int, d5: int) -> bool:
+               d0: int, d1: int, d2: int, d3: int, d4: int, d5: int, d6: int, d7: int, d8: int, d9: int, d10: int, d11: int) -> bool:
     """
     pre: 0 <= check <= 1 and 0 <= b < 13 and 1 <= length <= 12 and -1 <= exc <= 7 and 0 <= reuse <= 1 and 0 <= tail <= 2
-    pre: 0 <= d0 < 1000 and 0 <= d1 < 1000 and 0 <= d2 < 1000 and 0 <= d3 < 1000 and 0 <= d4 < 1000 and 0 <= d5 < 1000
     post: _
     """
     # TestCaseMutation.mutate on a chromosome whose cached values are current (changed == False); exc >= 0: the last
     # execution raised at statement exc.  check 0: WF; check 1: a changed test case has chromosome.changed == True.
-    _w, _tape = _fresh(length, reuse, (d0, d1, d2, d3, d4, d5), tail)
+    _w, _tape = _fresh(length, reuse, (d0, d1, d2, d3, d4, d5, d6, d7, d8, d9, d10, d11), tail)
     t = L.base(b)
-    if exc >= t.size():
-        return vacuous()
+    exc = -1 + (exc + 1) % (t.size() + 1)  # effective position of the last exception in [-1, size)
     code0 = L.code_of(t)
     c = L.chromosome(t)
     res = _exec_result(exc)
@@ -298,20 +293,18 @@ def base_size(b: int) -> int:
 
 
 def h_f_mutins(check: int, b: int, length: int, exc: int, reuse: int, tail: int,
-               d0: int, d1: int, d2: int, d3: int, d4: int, d5: int) -> bool:
+               d0: int, d1: int, d2: int, d3: int, d4: int, d5: int, d6: int, d7: int, d8: int, d9: int, d10: int, d11: int) -> bool:
     """
     pre: 0 <= check <= 1 and 0 <= b < 13 and 1 <= length <= 12 and -1 <= exc <= 7 and 0 <= reuse <= 1 and 0 <= tail <= 2
-    pre: 0 <= d0 < 1000 and 0 <= d1 < 1000 and 0 <= d2 < 1000 and 0 <= d3 < 1000 and 0 <= d4 < 1000 and 0 <= d5 < 1000
     post: _
     """
     # The insertion mutation alone (TestCaseMutation._mutation_insert).  check 0: WF, and a changed test case is
     # reported as changed (mutate() turns that report into chromosome.changed); check 1: a test case that
     # respected chromosome_length still does.
-    _w, _tape = _fresh(length, reuse, (d0, d1, d2, d3, d4, d5), tail)
+    _w, _tape = _fresh(length, reuse, (d0, d1, d2, d3, d4, d5, d6, d7, d8, d9, d10, d11), tail)
     t = L.base(b)
     size0 = t.size()
-    if exc >= size0:
-        return vacuous()
+    exc = -1 + (exc + 1) % (size0 + 1)  # effective position of the last exception in [-1, size)
     code0 = L.code_of(t)
     c = L.chromosome(t)
     res = _exec_result(exc)
@@ -336,7 +329,6 @@ def h_f_mutins(check: int, b: int, length: int, exc: int, reuse: int, tail: int,
 def h_f_crossover(check: int, b1: int, b2: int, length: int, d0: int, d1: int, d2: int) -> bool:
     """
     pre: 0 <= check <= 1 and 0 <= b1 < 13 and 0 <= b2 < 13 and 1 <= length <= 12
-    pre: 0 <= d0 < 1000 and 0 <= d1 < 1000 and 0 <= d2 < 1000
     post: _
     """
     # SinglePointRelativeCrossOver.cross_over: d0 is the relative split point, d1/d2 the candidate choices
@@ -367,15 +359,13 @@ def h_f_crossover(check: int, b1: int, b2: int, length: int, d0: int, d1: int, d
 def h_f_splice(b1: int, b2: int, p1: int, p2: int, length: int, d0: int, d1: int) -> bool:
     """
     pre: 0 <= b1 < 13 and 0 <= b2 < 13 and 0 <= p1 <= 8 and 0 <= p2 <= 8 and 1 <= length <= 12
-    pre: 0 <= d0 < 1000 and 0 <= d1 < 1000
     post: _
     """
     # TestCaseChromosome.cross_over at arbitrary split points of two factory-built parents
     _w, _tape = _fresh(length, 0, (d0, d1), 0)
     t1, t2 = L.base(b1), L.base(b2)
     s1, s2 = t1.size(), t2.size()
-    if p1 > s1 or p2 > s2:
-        return vacuous()
+    p1, p2 = p1 % (s1 + 1), p2 % (s2 + 1)  # effective split points in [0, size]
     code1, code2 = L.code_of(t1), L.code_of(t2)
     c1, c2 = L.chromosome(t1), L.chromosome(t2)
     try:
@@ -394,10 +384,9 @@ def h_f_splice(b1: int, b2: int, p1: int, p2: int, length: int, d0: int, d1: int
     return reach(True)
 
 
-def h_f_suite(b1: int, b2: int, length: int, reuse: int, tail: int, d0: int, d1: int, d2: int, d3: int, d4: int, d5: int) -> bool:
+def h_f_suite(b1: int, b2: int, length: int, reuse: int, tail: int, d0: int, d1: int, d2: int, d3: int, d4: int, d5: int, d6: int, d7: int, d8: int, d9: int, d10: int, d11: int) -> bool:
     """
     pre: 1 <= b1 < 13 and 1 <= b2 < 13 and 2 <= length <= 12 and 0 <= reuse <= 1 and 0 <= tail <= 2
-    pre: 0 <= d0 < 1000 and 0 <= d1 < 1000 and 0 <= d2 < 1000 and 0 <= d3 < 1000 and 0 <= d4 < 1000 and 0 <= d5 < 1000
     post: _
     """
     # TestSuiteMutation.mutate on a suite of two non-empty tests whose cached values are current
@@ -406,7 +395,7 @@ def h_f_suite(b1: int, b2: int, length: int, reuse: int, tail: int, d0: int, d1:
     import pynguin.ga.testsuitechromosome as tsc
     from pynguin.utils.orderedset import OrderedSet
 
-    w, _tape = _fresh(length, reuse, (d0, d1, d2, d3, d4, d5), tail)
+    w, _tape = _fresh(length, reuse, (d0, d1, d2, d3, d4, d5, d6, d7, d8, d9, d10, d11), tail)
     chrom_factory = tccf.TestCaseChromosomeFactory(w.factory, tcf.RandomLengthTestCaseFactory(w.factory, w.cluster), OrderedSet())
     suite = tsc.TestSuiteChromosome(chrom_factory)
     tests = [L.chromosome(L.base(b1)), L.chromosome(L.base(b2))]
@@ -446,15 +435,13 @@ def h_f_history(b: int, o1: int, p1: int, o2: int, p2: int, reuse: int, tail: in
                 d0: int, d1: int, d2: int, e0: int, e1: int, e2: int) -> bool:
     """
     pre: 0 <= b < 13 and 0 <= o1 <= 6 and 0 <= o2 <= 6 and 0 <= p1 <= 8 and 0 <= p2 <= 10 and 0 <= reuse <= 1 and 0 <= tail <= 2
-    pre: 0 <= d0 < 1000 and 0 <= d1 < 1000 and 0 <= d2 < 1000 and 0 <= e0 < 1000 and 0 <= e1 < 1000 and 0 <= e2 < 1000
     post: _
     """
     # two factory operations in a row, three symbolic draws each
     w, tape = _fresh(48, reuse, (), tail)
     t = L.base(b)
     for step, (o, p, cells) in enumerate(((o1, p1, (d0, d1, d2)), (o2, p2, (e0, e1, e2)))):
-        if p > t.size():
-            return vacuous()
+        p = p % (t.size() + 1)  # effective position in [0, size]
         tape.load(cells)
         name = pick(HISTORY_OPS, o)
         try:
@@ -562,50 +549,46 @@ def obligations(tier: str):
 
     q = tier == "quick"
     T = 150 if q else 900  # structural obligations end 'confirmed' long before
-    E = 45 if q else 250  # exploration budget per obligation
-    six = {}  # all six cells symbolic
+    E = 35 if q else 240  # exploration budget (CPU-s) per obligation
     obs = []
-    # ---------------- layer (i)
-    nm = 3 if q else 4
+    # ---------------- layer (i): exhaustive
+    obs.append(Chx("s_remove", h_s_remove, timeout=T, fix={"nmax": 3}, split={"how": [0, 1, 2, 3, 4]}))
+    obs.append(Chx("s_clone", h_s_clone, timeout=T, fix={"nmax": 3}))
+    obs.append(Chx("s_unused", h_s_unused, timeout=T, fix={"nmax": 3}))
+    obs.append(Chx("s_append", h_s_append, timeout=T, fix={"ab": False, "nbmax": 2}))
+    obs.append(Chx("s_append", h_s_append, timeout=T, fix=dict({"ab": False, "nbmax": 3, "nb": 3}, **({"va": 0} if q else {})),
+                   split={"tb": [0, 1, 2, 3]}))
+    obs.append(Chx("s_splice", h_s_splice, timeout=T, fix={"nbmax": 2}, split={"na": [0, 1, 2, 3]}))
     if q:
-        obs.append(Chx("s_remove", h_s_remove, timeout=T, fix={"nmax": 3}, split={"how": [0, 1, 2, 3, 4]}))
         obs.append(Chx("s_remove", h_s_remove, timeout=T, fix={"nmax": 4, "n": 4, "how": 0}, split={"variant": [0, 1, 2]}))
-        obs.append(Chx("s_clone", h_s_clone, timeout=T, fix={"nmax": 3}))
-        obs.append(Chx("s_unused", h_s_unused, timeout=T, fix={"nmax": 3}))
-        obs.append(Chx("s_append", h_s_append, timeout=T, fix={"ab": False, "nbmax": 2}))
         obs.append(Chx("s_append_assert", h_s_append, timeout=T, fix={"ab": True, "nbmax": 2}))
-        obs.append(Chx("s_splice", h_s_splice, timeout=T, fix={"nbmax": 2}, split={"na": [0, 1, 2, 3]}))
+        # b of three statements against the first type pattern / numbering of a
+        obs.append(Chx("s_splice", h_s_splice, timeout=T, fix={"nbmax": 3, "nb": 3, "ta": 0, "va": 0}, split={"tb": [0, 1, 2, 3]}))
     else:
-        obs.append(Chx("s_remove", h_s_remove, timeout=T, fix={"nmax": 3}, split={"how": [0, 1, 2, 3, 4]}))
         obs.append(Chx("s_remove", h_s_remove, timeout=T, fix={"nmax": 4, "n": 4}, split={"how": [0, 1, 2, 3, 4], "variant": [0, 1, 2]}))
-        obs.append(Chx("s_clone", h_s_clone, timeout=T, fix={"nmax": 3}))
         obs.append(Chx("s_clone", h_s_clone, timeout=T, fix={"nmax": 4, "n": 4}, split={"variant": [0, 1, 2], "b0": [False, True]}))
-        obs.append(Chx("s_unused", h_s_unused, timeout=T, fix={"nmax": 3}))
         obs.append(Chx("s_unused", h_s_unused, timeout=T, fix={"nmax": 4, "n": 4}, split={"variant": [0, 1, 2]}))
-        obs.append(Chx("s_append", h_s_append, timeout=T, fix={"ab": False, "nbmax": 2}))
-        obs.append(Chx("s_append", h_s_append, timeout=T, fix={"ab": False, "nbmax": 3, "nb": 3}, split={"tb": [0, 1, 2, 3]}))
         obs.append(Chx("s_append_assert", h_s_append, timeout=T, fix={"ab": True, "nbmax": 3}))
-        obs.append(Chx("s_splice", h_s_splice, timeout=T, fix={"nbmax": 2}, split={"na": [0, 1, 2, 3]}))
         obs.append(Chx("s_splice", h_s_splice, timeout=T, fix={"nbmax": 3, "nb": 3}, split={"na": [0, 1, 2, 3], "tb": [0, 1, 2, 3]}))
-    del nm, six
-    # ---------------- layer (ii)
-    tails = {"tail": [0, 1, 2]}
-    obs.append(Chx("f_insert", h_f_insert, timeout=E, split=tails))
-    obs.append(Chx("f_build", h_f_build, timeout=E, split={"reuse": [0, 1]}))
+    # ---------------- layer (ii): exploration under a CPU budget
+    nacc = 14  # accessible objects of the subject: d0 % nacc is the one insert_random_statement picks
+    obs.append(Chx("f_insert", h_f_insert, timeout=(20 if q else E), split={"d0": list(range(nacc))}))
+    obs.append(Chx("f_build", h_f_build, timeout=E * 3 // 4, split={"reuse": [0, 1]}))
     obs.append(Chx("f_delete", h_f_delete, timeout=T))
     obs.append(Chx("f_change", h_f_change, timeout=E, split={"op": [0, 1, 2, 3, 4]}))
-    obs.append(Chx("f_mutate_wf", h_f_mutate, timeout=E, fix={"check": 0}, split=tails))
-    obs.append(Chx("f_mutate_flag", h_f_mutate, timeout=E, fix={"check": 1}, split=tails))
+    obs.append(Chx("f_mutate_wf", h_f_mutate, timeout=E, fix={"check": 0}, split={"reuse": [0, 1]}))
+    obs.append(Chx("f_mutate_flag", h_f_mutate, timeout=E, fix={"check": 1}, split={"reuse": [0, 1]}))
     obs.append(Chx("f_mutins_wf", h_f_mutins, timeout=E, fix={"check": 0}))
-    obs.append(Chx("f_mutins_len", h_f_mutins, timeout=E // 2, fix={"check": 1}))
+    obs.append(Chx("f_mutins_len", h_f_mutins, timeout=E // 3, fix={"check": 1}))
     obs.append(Chx("f_crossover_wf", h_f_crossover, timeout=E, fix={"check": 0}))
-    obs.append(Chx("f_crossover_len", h_f_crossover, timeout=E // 2, fix={"check": 1}))
+    obs.append(Chx("f_crossover_len", h_f_crossover, timeout=E // 3, fix={"check": 1}))
     obs.append(Chx("f_splice", h_f_splice, timeout=E))
-    obs.append(Chx("f_suite", h_f_suite, timeout=E, split={"reuse": [0, 1]}))
+    obs.append(Chx("f_suite", h_f_suite, timeout=E * 3 // 4, split={"reuse": [0, 1]}))
     obs.append(Chx("f_history", h_f_history, timeout=E, split={"reuse": [0, 1]}))
     if not q:
         # more processes on the widest spaces
-        obs.append(Chx("f_insert_r", h_f_insert, timeout=E, split={"tail": [0, 1, 2], "reuse": [0, 1]}))
-        obs.append(Chx("f_change_r", h_f_change, timeout=E, split={"op": [0, 2, 3], "tail": [0, 1, 2]}))
+        obs.append(Chx("f_change_t", h_f_change, timeout=E, split={"op": [0, 2, 3], "tail": [0, 1, 2]}))
         obs.append(Chx("f_history_o", h_f_history, timeout=E, split={"o1": [0, 1, 2, 3, 4, 5, 6]}))
+        obs.append(Chx("f_mutate_wf_t", h_f_mutate, timeout=E, fix={"check": 0}, split={"tail": [0, 1, 2]}))
+        obs.append(Chx("f_mutate_flag_t", h_f_mutate, timeout=E, fix={"check": 1}, split={"tail": [0, 1, 2]}))
     return obs
